@@ -265,17 +265,18 @@ func ZZC09Broker() {
 				sessAck = true
 				outS = nil
 				seeS()
-			} else {
+			} else if clean || !sessAck {
+				// a cut CONNECT that starts a new session: the old state may or may not be gone
 				sessMaybe = true
-				if clean {
-					for _, s := range subs {
-						s.maybe = true
-					}
-					for _, m := range msgs {
-						m.sMaybe = true
-					}
+				for _, s := range subs {
+					s.maybe = true
+				}
+				for _, m := range msgs {
+					m.sMaybe = true
 				}
 			}
+			// a cut CONNECT that resumes an acknowledged session changes nothing the client
+			// relies on: the session, its subscriptions and its messages must all survive
 		case 1: // S subscribes
 			if S.c == nil {
 				zzrt.Assume(false)
